@@ -55,6 +55,16 @@ try:
                 del procs[cid]
         time.sleep(0.3)
     res["wall"] = round(time.time() - t0, 1)
+    # keep up to 2 replay files per firing check as replayable witnesses of this change
+    import glob
+    for cid, v in res["checks"].items():
+        if v["rc"] == 1:
+            files = sorted(glob.glob(f"{out}/replays/{cid}/*.json"))[:2]
+            if files:
+                dst = f"{VERIF}/mutants/replays/{a.name}"
+                os.makedirs(dst, exist_ok=True)
+                for f in files:
+                    shutil.copy(f, f"{dst}/{cid}_{os.path.basename(f)}")
 finally:
     subprocess.run(["git", "-C", "/repo", "worktree", "remove", "--force", tree], capture_output=True)
     shutil.rmtree(out, ignore_errors=True)
